@@ -53,7 +53,11 @@ def generate(seed, tier):
     for _ in range(nops):
         m = r.randrange(nm)
         x = r.random()
-        if x < 0.04:
+        if x < 0.03:
+            # the same seeded sequence executed twice on the SAME (reused) model object
+            N2 = r.randint(2, 6)
+            ops.append({"op": "reseed_repeat", "m": m, "seed2": r.getrandbits(31), "N": N2, "dseed": P.s64(r), "epochs": r.randint(1, 2), "pos_bs": r.choice([1, 2, 3]), "neg_bs": r.choice([None, 2, 3]), "start": r.choice(["reinit", "randomise"])})
+        elif x < 0.07:
             # the caller uses a tensor the library handed out (the enumerated basis) as ITS chain buffer, in place
             ops.append({"op": "sample_space", "m": m, "k": r.choice([1, 2, 5])})
         elif x < 0.2:
@@ -109,11 +113,11 @@ def generate(seed, tier):
         else:
             where = ["line", r.randrange(0, 300)]
         perturb.append({"where": where, "what": r.choice(["np_seed", "np_draw", "py_seed", "py_draw", "all"]), "x": r.getrandbits(31)})
-    fresh_share = 0.03 if tier == "thorough" else 0.015
+    fresh_share = 0.05 if tier == "thorough" else 0.03
     return {
         "property": PROP,
         "run_seed": seed,
-        "config": {"models": models, "lib_seed": r.getrandbits(31), "fresh": r.random() < fresh_share, "hashseed": r.choice([1, 7, 12345, 2 ** 31]), "np_init": r.getrandbits(31), "randomise_first": r.random() < 0.5},
+        "config": {"models": models, "lib_seed": r.getrandbits(31), "fresh": r.random() < fresh_share, "hashseed": r.choice([1, 7, 12345, 2 ** 31]), "np_init": r.getrandbits(31), "randomise_first": r.random() < 0.5, "seed_gpu": r.random() < 0.3, "seed_positional": r.random() < 0.3},
         "ops": ops,
         "perturb": perturb,
     }
@@ -174,7 +178,15 @@ def run_history(plan, perturbed, lib_seed, run=None):
     np.random.seed(c["np_init"])
     random.seed(c["np_init"])
     warnings.simplefilter("ignore")
-    qucumber.set_random_seed(lib_seed, cpu=True, gpu=False, quiet=True)
+    def seed_library(sd):
+        # legal call forms of the seeding call (this machine has no GPU; gpu=True must still seed the CPU generator)
+        if c.get("seed_positional"):
+            qucumber.set_random_seed(sd, True, bool(c.get("seed_gpu")), True)
+        else:
+            qucumber.set_random_seed(sd, cpu=True, gpu=bool(c.get("seed_gpu")), quiet=True)
+
+    seed_library(lib_seed)
+    local = []
     models = []
     for mc in c["models"]:
         try:
@@ -213,6 +225,25 @@ def run_history(plan, perturbed, lib_seed, run=None):
                         out = tdigest(st.sample(op["k"], initial_state=init))
                     else:
                         out = tdigest(st.sample(op["k"], num_samples=op["n"]))
+                elif kind == "reseed_repeat":
+                    dcfg = {"N": op["N"], "nv": mc["nv"], "dseed": op["dseed"], "form": "tensor", "basis_mode": "mixed"}
+                    din, _, bases = build_data(dcfg, with_bases=mc["type"] != "positive")
+
+                    def sequence():
+                        seed_library(op["seed2"])
+                        if op["start"] == "reinit":
+                            st.reinitialize_parameters()
+                        else:
+                            randomise(st, op["dseed"], 1.0)
+                        kw = {} if bases is None else {"input_bases": bases}
+                        st.fit(din, epochs=op["epochs"], pos_batch_size=op["pos_bs"], neg_batch_size=op["neg_bs"], k=1, lr=0.05, **kw)
+                        return (state_digest(st), tdigest(st.sample(2, num_samples=5)))
+
+                    d1 = sequence()
+                    d2 = sequence()
+                    if d1 != d2:
+                        local.append((j, kind, "the same seeded sequence (seed, reinitialise, fit, sample) executed twice on the same model object gave different results"))
+                    out = d1
                 elif kind == "sample_space":
                     space = st.generate_hilbert_space()
                     res = st.sample(op["k"], initial_state=space, overwrite=True)
@@ -314,7 +345,7 @@ def run_history(plan, perturbed, lib_seed, run=None):
                 readonly.append((j, kind, f"{kind} ({op.get('which') or op.get('obs') or ''}) changed model parameters"))
             digests.append((kind, out))
         fire("op", len(plan["ops"]))
-    return {"digests": digests, "readonly": readonly, "errors": errors, "fired": fired}
+    return {"digests": digests, "readonly": readonly, "errors": errors, "fired": fired, "local": local}
 
 
 def _eval(st, mc, op, np, torch, tdigest):
@@ -445,6 +476,8 @@ def execute(plan):
         )
     for (j, kind, msg) in A["readonly"]:
         run.violate("14-readonly", f"op {j}: {msg}", op=kind)
+    for (j, kind, msg) in A.get("local", []):
+        run.violate("14-repro", f"op {j}: {msg}", op=kind)
     # different library seed -> different draws
     import torch
 
@@ -453,7 +486,7 @@ def execute(plan):
     from qsim.world import new_state
 
     def probe(seed):
-        qucumber.set_random_seed(seed, cpu=True, gpu=False, quiet=True)
+        qucumber.set_random_seed(seed, cpu=True, gpu=bool(c.get("seed_gpu")), quiet=True)
         st = new_state("positive", 4, 4)
         return tdigest(st.rbm_am.weights.data), tdigest(st.sample(0, num_samples=64))
 
@@ -489,7 +522,7 @@ def execute(plan):
             run.violate("14-repro", f"fresh interpreter under PYTHONHASHSEED={c['hashseed']} with foreign RNGs perturbed: first divergent operation is #{i - 1} ({kind})", op=kind, fresh=True)
     for s in B["fired"]["sites"]:
         run.fault("foreign_rng", s.split(":")[0] + (":" + s.split(":", 1)[1] if s.startswith("line") else ""))
-    consuming = sum(1 for op in plan["ops"] if op["op"] in ("sample", "sample_space", "stats", "fit", "reinit") or (op["op"] == "grad" and op["which"] == "batch"))
+    consuming = sum(1 for op in plan["ops"] if op["op"] in ("reseed_repeat", "sample", "sample_space", "stats", "fit", "reinit") or (op["op"] == "grad" and op["which"] == "batch"))
     run.trace = trace + [sorted(set(s.split(":")[0] for s in B["fired"]["sites"]))]
     run.nontrivial = consuming >= 2 and B["fired"]["n"] >= 1
     run.sim["ops"] += 2 * len(plan["ops"])
